@@ -15,6 +15,8 @@
 package moss
 
 import (
+	"bytes"
+
 	"github.com/couchbase/moss"
 )
 
@@ -30,6 +32,23 @@ type Iterator struct {
 }
 
 func (x *Iterator) Seek(seekToKey []byte) {
+	if x.ss != nil && (x.err != nil || bytes.Compare(seekToKey, x.k) < 0) {
+		// moss's SeekTo restarts internally when the target is not ahead of
+		// the current position and can then surface entries that were deleted
+		// in a newer segment; restart through the snapshot instead
+		start := seekToKey
+		if bytes.Compare(start, x.start) < 0 {
+			start = x.start
+		}
+		iter, err := x.ss.StartIterator(start, x.end, moss.IteratorOptions{})
+		if err == nil {
+			_ = x.iter.Close()
+			x.iter = iter
+			x.k, x.v, x.err = x.iter.Current()
+			return
+		}
+	}
+
 	_ = x.iter.SeekTo(seekToKey)
 
 	x.k, x.v, x.err = x.iter.Current()
